@@ -24,7 +24,8 @@ GEO = "cuqi/geometry/_geometry.py"
 
 
 def _norm(e) -> str:
-    return unparse(e).replace(" ", "").replace("\n", "")
+    from .common import vstr
+    return vstr(e)
 
 
 def run(chk, repo: Repo):
